@@ -76,7 +76,7 @@ func FlushOnExit
   props C17 C08
   requires @args err != nil && FlInv(f)
   modifies *err
-  modifies ghost(bufSticky, sinkFailed, sinkPend, prLen, prSink, prArg, prArgs, jlen)
+  modifies ghost(bufSticky, sinkFailed, sinkPend, prLen, prSink, prArg, prArgs, prFmt, jlen)
   let B := FlBuf(f)
   ensures @sink [C17] BufStep(B)
   ensures @keeps-error [C17] old(*err) != nil ==> *err == old(*err)
@@ -109,7 +109,7 @@ func WalkNodesInStream$1
   modifies heap(shared.TreeNode), maps(string, *shared.TreeNode), heap(balance.balanceSingleReporter), arrays(float64), maps(string, shared.AccValues), maps(string, bool), maps(string, float64)
   dyncall 1 filter.LogNodeFilter
   requires @reporter RepInv(r) && (filter == nil || *filter != nil)
-  modifies ghost(accKey, accP, accN, accH, bufSticky, sinkFailed, sinkPend, prLen, prSink, prArg, prArgs, csvLen, csvW, csvN, csvRow, tnodes, tdepth, tmax, tmapOf, jlen, tvLen, tv, tseg, tvSet, adLen, adName, adVal, adSep, adRoot, procLen, procTime, procSrc)
+  modifies ghost(accKey, accP, accN, accH, bufSticky, sinkFailed, sinkPend, prLen, prSink, prArg, prArgs, prFmt, csvLen, csvW, csvN, csvRow, tnodes, tdepth, tmax, tmapOf, jlen, tvLen, tv, tseg, tvSet, adLen, adName, adVal, adSep, adRoot, procLen, procTime, procSrc)
   let H := n.Header
   let T := ParseTimeVal(dateFormat, n.Header)
   let SEL := filter == nil || FilterSel(*filter, Inst(ParseTimeVal(dateFormat, n.Header)))
@@ -150,7 +150,7 @@ func WalkNodesInStream returns (err)
   calluse ParseStreamCallback#1 walk
   requires @reporter RepInv(r) && (filter == nil || *filter != nil) && logStream != nil
   modifies heap(shared.TreeNode), maps(string, *shared.TreeNode), heap(balance.balanceSingleReporter), arrays(float64), maps(string, shared.AccValues), maps(string, bool), maps(string, float64)
-  modifies ghost(cbLen, cbErr, cbNode, cbStop, cbRet, cbLineNo, cbLine, cbHeader, cbElems, cbNElems, scRd, scPos, privLo, evOf, accKey, accP, accN, accH, bufSticky, sinkFailed, sinkPend, prLen, prSink, prArg, prArgs, csvLen, csvW, csvN, csvRow, tnodes, tdepth, tmax, tmapOf, jlen, tvLen, tv, tseg, tvSet, adLen, adName, adVal, adSep, adRoot, procLen, procTime, procSrc)
+  modifies ghost(cbLen, cbErr, cbNode, cbStop, cbRet, cbLineNo, cbLine, cbHeader, cbElems, cbNElems, scRd, scPos, privLo, evOf, accKey, accP, accN, accH, bufSticky, sinkFailed, sinkPend, prLen, prSink, prArg, prArgs, prFmt, csvLen, csvW, csvN, csvRow, tnodes, tdepth, tmax, tmapOf, jlen, tvLen, tv, tseg, tvSet, adLen, adName, adVal, adSep, adRoot, procLen, procTime, procSrc)
   let B := RepBuf(r)
   ensures @reporter [C17 C08] RepInv(r) && RepBuf(r) == B && BufStep(B)
   // C06 / C12: the reporter is handed exactly the records whose heading date the filter selects, in file order:
@@ -178,7 +178,7 @@ fun CbCC(f int) uint8
 type utils.ResolvedCallback(nl) returns (err)
   requires @book DBIs(nl) && TreeInv()
   modifies *
-  modifies ghost(cbLen, cbErr, cbNode, cbStop, cbRet, cbLineNo, cbLine, cbHeader, cbElems, cbNElems, scRd, scPos, privLo, evOf, accKey, accP, accN, accH, bufSink, bufSticky, sinkFailed, sinkPend, prLen, prSink, prArg, prArgs, csvLen, csvW, csvN, csvRow, tnodes, tdepth, tmax, tmapOf, jlen, tvLen, tv, tseg, tvSet, adLen, adName, adVal, adSep, adRoot, procLen, procTime, procSrc)
+  modifies ghost(cbLen, cbErr, cbNode, cbStop, cbRet, cbLineNo, cbLine, cbHeader, cbElems, cbNElems, scRd, scPos, privLo, evOf, accKey, accP, accN, accH, bufSink, bufSticky, sinkFailed, sinkPend, prLen, prSink, prArg, prArgs, prFmt, csvLen, csvW, csvN, csvRow, tnodes, tdepth, tmax, tmapOf, jlen, tvLen, tv, tseg, tvSet, adLen, adName, adVal, adSep, adRoot, procLen, procTime, procSrc)
   ensures @log-unreadable [C10] err == nil ==> !RdFailed(CbLog(self))
   ensures @log-malformed [C09] err == nil ==> (forall i int :: {RdLine(CbLog(self), i)} 0 <= i && i < RdN(CbLog(self)) ==> !Malformed(CbLog(self), i, CbCC(self)))
   ensures @reports-loss [C17] err == nil ==> (sinkFailed[CbOut(self)] ==> old(sinkFailed[CbOut(self)])) && sinkPend[CbOut(self)] == 0
@@ -194,7 +194,7 @@ func WithResolvedDatabase returns (err)
   funcparam cb utils.ResolvedCallback
   calluse Resolve#1 any
   modifies *
-  modifies ghost(cbLen, cbErr, cbNode, cbStop, cbRet, cbLineNo, cbLine, cbHeader, cbElems, cbNElems, scRd, scPos, privLo, evOf, accKey, accP, accN, accH, bufSink, bufSticky, sinkFailed, sinkPend, prLen, prSink, prArg, prArgs, csvLen, csvW, csvN, csvRow, tnodes, tdepth, tmax, tmapOf, jlen, tvLen, tv, tseg, tvSet, adLen, adName, adVal, adSep, adRoot, procLen, procTime, procSrc)
+  modifies ghost(cbLen, cbErr, cbNode, cbStop, cbRet, cbLineNo, cbLine, cbHeader, cbElems, cbNElems, scRd, scPos, privLo, evOf, accKey, accP, accN, accH, bufSink, bufSticky, sinkFailed, sinkPend, prLen, prSink, prArg, prArgs, prFmt, csvLen, csvW, csvN, csvRow, tnodes, tdepth, tmax, tmapOf, jlen, tvLen, tv, tseg, tvSet, adLen, adName, adVal, adSep, adRoot, procLen, procTime, procSrc)
   let rd := payload(dbStream)
   let cc := pc.CommentChar
   ensures @book-unreadable [C10] err == nil ==> !RdFailed(rd)
@@ -229,7 +229,7 @@ func WalkWithReporter returns (err)
   requires @sink logStream != nil && dbStream != nil && rpCb != nil && rpc.Output != nil && !typeis(rpc.Output, "*bufio.Writer") && !typeis(rpc.Output, "*encoding/csv.Writer") && TreeInv()
   funcparam rpCb utils.ReporterCallback
   modifies *
-  modifies ghost(cbLen, cbErr, cbNode, cbStop, cbRet, cbLineNo, cbLine, cbHeader, cbElems, cbNElems, scRd, scPos, privLo, evOf, accKey, accP, accN, accH, bufSink, bufSticky, sinkFailed, sinkPend, prLen, prSink, prArg, prArgs, csvLen, csvW, csvN, csvRow, tnodes, tdepth, tmax, tmapOf, jlen, tvLen, tv, tseg, tvSet, adLen, adName, adVal, adSep, adRoot, procLen, procTime, procSrc)
+  modifies ghost(cbLen, cbErr, cbNode, cbStop, cbRet, cbLineNo, cbLine, cbHeader, cbElems, cbNElems, scRd, scPos, privLo, evOf, accKey, accP, accN, accH, bufSink, bufSticky, sinkFailed, sinkPend, prLen, prSink, prArg, prArgs, prFmt, csvLen, csvW, csvN, csvRow, tnodes, tdepth, tmax, tmapOf, jlen, tvLen, tv, tseg, tvSet, adLen, adName, adVal, adSep, adRoot, procLen, procTime, procSrc)
   let out := payload(rpc.Output)
   let lrd := payload(logStream)
   let drd := payload(dbStream)
@@ -247,7 +247,7 @@ func WalkWithReporter returns (err)
 type utils.ReadersCb(streams) returns (err)
   requires @all-open forall i int :: {streams[i]} 0 <= i && i < len(streams) ==> streams[i] != nil && payload(streams[i]) != 0   // an interface around a nil *os.File is not nil
   modifies *
-  modifies ghost(cbLen, cbErr, cbNode, cbStop, cbRet, cbLineNo, cbLine, cbHeader, cbElems, cbNElems, scRd, scPos, privLo, evOf, accKey, accP, accN, accH, bufSink, bufSticky, sinkFailed, sinkPend, prLen, prSink, prArg, prArgs, csvLen, csvW, csvN, csvRow, tnodes, tdepth, tmax, tmapOf, jlen, tvLen, tv, tseg, tvSet, adLen, adName, adVal, adSep, adRoot, lastOpen)
+  modifies ghost(cbLen, cbErr, cbNode, cbStop, cbRet, cbLineNo, cbLine, cbHeader, cbElems, cbNElems, scRd, scPos, privLo, evOf, accKey, accP, accN, accH, bufSink, bufSticky, sinkFailed, sinkPend, prLen, prSink, prArg, prArgs, prFmt, csvLen, csvW, csvN, csvRow, tnodes, tdepth, tmax, tmapOf, jlen, tvLen, tv, tseg, tvSet, adLen, adName, adVal, adSep, adRoot, lastOpen)
 
 // wfrRan: 1 once WithFileReaders has handed the opened files to its callback (0 before)
 ghost wfrRan int
@@ -256,7 +256,7 @@ func NewCmdUtils$1 returns (err)
   requires @cb cb != nil
   funcparam cb utils.ReadersCb
   modifies *
-  modifies ghost(cbLen, cbErr, cbNode, cbStop, cbRet, cbLineNo, cbLine, cbHeader, cbElems, cbNElems, scRd, scPos, privLo, evOf, accKey, accP, accN, accH, bufSink, bufSticky, sinkFailed, sinkPend, prLen, prSink, prArg, prArgs, csvLen, csvW, csvN, csvRow, tnodes, tdepth, tmax, tmapOf, jlen, tvLen, tv, tseg, tvSet, adLen, adName, adVal, adSep, adRoot, lastOpen, wfrRan)
+  modifies ghost(cbLen, cbErr, cbNode, cbStop, cbRet, cbLineNo, cbLine, cbHeader, cbElems, cbNElems, scRd, scPos, privLo, evOf, accKey, accP, accN, accH, bufSink, bufSticky, sinkFailed, sinkPend, prLen, prSink, prArg, prArgs, prFmt, csvLen, csvW, csvN, csvRow, tnodes, tdepth, tmax, tmapOf, jlen, tvLen, tv, tseg, tvSet, adLen, adName, adVal, adSep, adRoot, lastOpen, wfrRan)
   // a file that cannot be opened is an ERROR: the callback is not run and nil is not returned (C10)
   ghost at entry { set wfrRan := 0 }
   ensures @unopenable-is-an-error [C10 C16] wfrRan == 0 ==> err != nil
@@ -276,7 +276,7 @@ func NewCmdUtils$1 returns (err)
 type utils.OptionsCb(o) returns (err)
   requires @loaded o != nil && o.ReporterConfig.Output != nil && typeis(o.ReporterConfig.Output, "*os.File")
   modifies *
-  modifies ghost(cbLen, cbErr, cbNode, cbStop, cbRet, cbLineNo, cbLine, cbHeader, cbElems, cbNElems, scRd, scPos, privLo, evOf, accKey, accP, accN, accH, bufSink, bufSticky, sinkFailed, sinkPend, prLen, prSink, prArg, prArgs, csvLen, csvW, csvN, csvRow, tnodes, tdepth, tmax, tmapOf, jlen, tvLen, tv, tseg, tvSet, adLen, adName, adVal, adSep, adRoot, procLen, procTime, procSrc, lastOpen, cfgRd)
+  modifies ghost(cbLen, cbErr, cbNode, cbStop, cbRet, cbLineNo, cbLine, cbHeader, cbElems, cbNElems, scRd, scPos, privLo, evOf, accKey, accP, accN, accH, bufSink, bufSticky, sinkFailed, sinkPend, prLen, prSink, prArg, prArgs, prFmt, csvLen, csvW, csvN, csvRow, tnodes, tdepth, tmax, tmapOf, jlen, tvLen, tv, tseg, tvSet, adLen, adName, adVal, adSep, adRoot, procLen, procTime, procSrc, lastOpen, cfgRd)
 
 func NewCmdUtils$2 returns (err)
   props C16 C17 C08
@@ -287,7 +287,7 @@ func NewCmdUtils$2 returns (err)
   requires @lineage-flags forall j int :: {LineageAt(c, j)} 0 <= j && j < LineageLen(c) ==> CtxDef(LineageAt(c, j), "csv") != 0 && CtxDef(LineageAt(c, j), "no-color") != 0 && CtxDef(LineageAt(c, j), "collapse-last") != 0 && CtxDef(LineageAt(c, j), "collapse") != 0 && CtxDef(LineageAt(c, j), "no-totals") != 0 && CtxDef(LineageAt(c, j), "totals-only") != 0 && CtxDef(LineageAt(c, j), "shorten") != 0 && CtxDef(LineageAt(c, j), "use-old-reg-reporter") != 0 && CtxDef(LineageAt(c, j), "internal-template-name") != 0 && CtxDef(LineageAt(c, j), "begin") != 0 && CtxDef(LineageAt(c, j), "end") != 0
   requires @documented-defaults FlagDefault("database") == "food.yaml" && FlagDefault("logfile") == "log.yaml" && FlagDefault("date-format") == "2006/01/02" && IntOfStr(FlagDefault("maxdepth")) == 10
   modifies *
-  modifies ghost(cbLen, cbErr, cbNode, cbStop, cbRet, cbLineNo, cbLine, cbHeader, cbElems, cbNElems, scRd, scPos, privLo, evOf, accKey, accP, accN, accH, bufSink, bufSticky, sinkFailed, sinkPend, prLen, prSink, prArg, prArgs, csvLen, csvW, csvN, csvRow, tnodes, tdepth, tmax, tmapOf, jlen, tvLen, tv, tseg, tvSet, adLen, adName, adVal, adSep, adRoot, procLen, procTime, procSrc, lastOpen, cfgRd)
+  modifies ghost(cbLen, cbErr, cbNode, cbStop, cbRet, cbLineNo, cbLine, cbHeader, cbElems, cbNElems, scRd, scPos, privLo, evOf, accKey, accP, accN, accH, bufSink, bufSticky, sinkFailed, sinkPend, prLen, prSink, prArg, prArgs, prFmt, csvLen, csvW, csvN, csvRow, tnodes, tdepth, tmax, tmapOf, jlen, tvLen, tv, tseg, tvSet, adLen, adName, adVal, adSep, adRoot, procLen, procTime, procSrc, lastOpen, cfgRd)
   // a failure to load the options (an explicitly named configuration file that does not exist, an unreadable one, a
   // --today that does not parse) is returned, and the command does not run (C16, C06)
   ghost before call 1 Load { assert @uses-the-configuration-file [C16] #arg2 }
